@@ -403,6 +403,21 @@ def initial_case(ctx, rng, idx):
         ctx.violation('initial_points_finite', 'initial_nonfinite',
                       {'points': a}, feats)
         return
+    if which == 2 and not any(l.cov and l.kind in 'PH'
+                              for l in case.leaves):
+        # (covariate-wrapped pooled / heterogeneous parts in a filter
+        # posterior are the open finding of C13 and not generated here)
+        # every entry of the point means what its published name / ID says
+        # (perturbation through the taps; shared with the C13 machinery)
+        from checks import c13
+        try:
+            c13._patch_filters()
+            c13._names(ctx, case, a[0], rng)
+            ctx.count('filter_names_checked_by_dataflow')
+        except Exception as e:      # noqa
+            ctx.violation_exc('names_dataflow_raises', e, {'case': feats},
+                              feats)
+            return
     # prior and population contributions are finite
     for row in a:
         if which == 0:
